@@ -94,6 +94,8 @@ class CachedStore(Entity):
         # Cache storage
         self._cache: dict[str, Any] = {}
         self._dirty_keys: set[str] = set()  # For write-back
+        # Keys with a backing-store write/delete in flight (key -> count)
+        self._inflight_writes: dict[str, int] = {}
 
         # Statistics
         self._reads = 0
@@ -174,8 +176,10 @@ class CachedStore(Entity):
         self._misses += 1
         value = yield from self._backing_store.get(key)
 
-        if value is not None:
-            # Cache the value
+        # Cache the value, unless it may already be out of date: the key was
+        # written or filled while the fetch was in flight (the cached entry is at
+        # least as new), or a write to it has not reached the backing store yet.
+        if value is not None and key not in self._cache and key not in self._inflight_writes:
             self._cache_put(key, value)
 
         return value
@@ -200,7 +204,11 @@ class CachedStore(Entity):
 
         if self._write_through:
             # Write to backing store
-            yield from self._backing_store.put(key, value)
+            self._begin_write(key)
+            try:
+                yield from self._backing_store.put(key, value)
+            finally:
+                self._end_write(key)
         else:
             # Mark as dirty for later writeback
             self._dirty_keys.add(key)
@@ -222,7 +230,11 @@ class CachedStore(Entity):
         if existed_in_cache:
             self._cache_remove(key)
 
-        existed_in_store = yield from self._backing_store.delete(key)
+        self._begin_write(key)
+        try:
+            existed_in_store = yield from self._backing_store.delete(key)
+        finally:
+            self._end_write(key)
         return existed_in_cache or existed_in_store
 
     def invalidate(self, key: str) -> None:
@@ -299,6 +311,18 @@ class CachedStore(Entity):
         self._cache.pop(key, None)
         self._dirty_keys.discard(key)
         self._eviction_policy.on_remove(key)
+
+    def _begin_write(self, key: str) -> None:
+        """Note that a write to ``key`` is on its way to the backing store."""
+        self._inflight_writes[key] = self._inflight_writes.get(key, 0) + 1
+
+    def _end_write(self, key: str) -> None:
+        """Note that a write to ``key`` has reached the backing store."""
+        remaining = self._inflight_writes.get(key, 0) - 1
+        if remaining > 0:
+            self._inflight_writes[key] = remaining
+        else:
+            self._inflight_writes.pop(key, None)
 
     def contains_cached(self, key: str) -> bool:
         """Check if a key is in the cache.
